@@ -12,10 +12,11 @@
 
   Guards, explicit and decidable (the driver evaluates them on every generated case):
   `IdsOK L R` — the two lists consist of pairwise distinct nodes; `JobsOK L R (jobs …)` — the
-  certain jobs pair no individual twice, which holds when pointers are unique per side and no
-  two left individuals select the same right individual through their unique identifiers.
+  certain jobs pair no individual twice.  `jobsOK_of_guards` derives the latter from the inputs:
+  pointers unique per side (`PtrsOK`) and no two left individuals selecting the same right
+  individual through their unique identifiers (`UniqueTargetsOK`).
 -/
-import Gedcom.Lemmas.Match
+import Gedcom.Lemmas.MatchJobs
 namespace Gedcom.C11
 open Gedcom Gedcom.Match
 
@@ -41,6 +42,22 @@ theorem each_right_once (arrival : List Job) (hp : arrival.Perm (jobs L R scoreT
     (x : Nat) (hx : x ∈ R.map (·.id)) :
     rightCount x (winners L R minW arrival) = 1 :=
   right_once' L R minW arrival hids (jobsOK_perm hp hok) x hx
+
+/-- the guard on the jobs follows from guards on the inputs: distinct nodes, pointers unique per
+    side, no two left individuals selecting the same right individual by unique identifier -/
+theorem jobsOK_of_guards (hids : IdsOK L R) (hp : PtrsOK L R) (hu : UniqueTargetsOK L R) :
+    JobsOK L R (jobs L R scoreT scoreF prefer) :=
+  jobsOK_of_guards' L R scoreT scoreF prefer hids hp hu
+
+/-- the matching is one-to-one on every schedule, stated on the inputs alone -/
+theorem valid_matching (arrival : List Job) (hperm : arrival.Perm (jobs L R scoreT scoreF prefer))
+    (hids : IdsOK L R) (hp : PtrsOK L R) (hu : UniqueTargetsOK L R) :
+    (∀ x ∈ L.map (·.id), leftCount x (winners L R minW arrival) = 1) ∧
+    (∀ x ∈ R.map (·.id), rightCount x (winners L R minW arrival) = 1) :=
+  ⟨fun x hx => each_left_once L R scoreT scoreF prefer minW arrival hperm hids
+      (jobsOK_of_guards L R scoreT scoreF prefer hids hp hu) x hx,
+   fun x hx => each_right_once L R scoreT scoreF prefer minW arrival hperm hids
+      (jobsOK_of_guards L R scoreT scoreF prefer hids hp hu) x hx⟩
 
 /-- no result is empty on both sides, and no result mentions a node of neither list (needs no
     guard) -/
@@ -101,7 +118,8 @@ def dupR : List Person := [⟨10, [80, 49], [[1]]⟩]
 /-- two left individuals with the unique identifier of one right individual: the right
     individual is in two results, in the sequential run already -/
 theorem dup_uid_counterexample :
-    IdsOK dupL dupR ∧ ¬ JobsOK dupL dupR (jobs dupL dupR (fun _ _ => 0) (fun _ _ => 0) 0) ∧
+    IdsOK dupL dupR ∧ PtrsOK dupL dupR ∧ ¬ UniqueTargetsOK dupL dupR ∧
+    ¬ JobsOK dupL dupR (jobs dupL dupR (fun _ _ => 0) (fun _ _ => 0) 0) ∧
     rightCount 10 (compare dupL dupR (fun _ _ => 0) (fun _ _ => 0) 0 0) = 2 := by
   decide +kernel
 
@@ -113,7 +131,8 @@ def exF : Nat → Nat → Rat := fun l r => if l = 2 ∧ r = 10 then 9 / 10 else
 
 -- one unique-id job (0-12), one pointer job (1-11), a remaining matrix with a winner (2-10):
 -- the guards hold and there are jobs of all three kinds
-example : IdsOK exL exR ∧ JobsOK exL exR (jobs exL exR (fun _ _ => 1) exF (1 / 2)) := by decide +kernel
+example : IdsOK exL exR ∧ PtrsOK exL exR ∧ UniqueTargetsOK exL exR ∧
+    JobsOK exL exR (jobs exL exR (fun _ _ => 1) exF (1 / 2)) := by decide +kernel
 example : compare exL exR (fun _ _ => 1) exF (1 / 2) (1 / 2) =
     [(some 0, some 12), (some 1, some 11), (some 2, some 10), (none, some 13)] := by decide +kernel
 -- NoScoreTies is satisfiable with several candidate pairs, and with ties below the threshold
